@@ -39,8 +39,10 @@ TRUSTED_BASE = [
     "metamorphic execution of the real routines in this check (a test, not a proof)",
     "the group actions of Pms/Model/Sym.lean are executed by the driver in exact ℚ and compared with the numpy "
     "transformations used on the real code (1e-9)",
-    "rotation invariance of q_l is proved FROM the spherical-harmonic addition theorem (hypothesis, not in Mathlib); "
-    "rotation invariance of ŵ_l is not proved (full statement kept as a Prop), only tested",
+    "rotation invariance of q_l, of the coarse-grained Q_l and of s_ij is PROVED for every degree l ≤ 12 (C07_rot_ql, C07_rot_Ql, "
+    "C07_rot_sij): the spherical-harmonic addition theorem is proved for the model's own Y_lm from a trivariate polynomial identity "
+    "decided in the kernel (`decide +kernel`, no native_decide); for l > 12 it is a hypothesis (C07_rot_ql_partial); rotation "
+    "invariance of ŵ_l is not proved (full statement kept as a Prop), only tested",
     "float64 ≈ ℝ, numpy/pandas/LAPACK primitives by contract; cos/sin addition formulas and 2π-periodicity from Mathlib",
     "margin guards and tolerances of harness/corr/C07.py (1e-8 on reals, 2e-6 on S(q) after the code's round(6))",
 ]
